@@ -117,6 +117,9 @@ func readLine(reader *bufio.Reader) ([]byte, error) {
 	if !isPrefix {
 		return line, err
 	}
+	// the fragment returned by ReadLine is a slice of the reader's buffer, which the
+	// next ReadLine overwrites: keep a copy before reading on
+	line = append([]byte(nil), line...)
 	for {
 		b, isPrefix, err := reader.ReadLine()
 		if err != nil {
